@@ -12,6 +12,7 @@ import ast
 import itertools
 from fractions import Fraction
 
+from .core import norm
 from .absint import TOP, Evaluator, Lin, Obj, Raised, SliceV, Unmodelled, simplify
 
 
@@ -87,6 +88,10 @@ class OrderType:
         return s
 
 
+class KernelFault(Exception):
+    """The kernel computes something that cannot be a weighted sum of the data (definite fault, not a gap of the model)."""
+
+
 class KernelEval(Evaluator):
     def __init__(self, project, order: OrderType, **kw):
         super().__init__(project, **kw)
@@ -114,6 +119,16 @@ class KernelEval(Evaluator):
         return super().compare(op, l, r, node)
 
     def binop(self, op, l, r, node):
+        has_data = lambda x: isinstance(x, (Data, Term, SumV))
+        if isinstance(op, (ast.Div, ast.FloorDiv, ast.Mod, ast.Pow)) and has_data(r):
+            raise KernelFault(f"`{norm(node, 60)}` divides by (a combination of) the data values: the result is not proportional to the data")
+        if isinstance(op, ast.Mult) and has_data(l) and has_data(r):
+            raise KernelFault(f"`{norm(node, 60)}` multiplies data values with each other: the result is not linear in the data")
+        if isinstance(op, (ast.Add, ast.Sub)) and (has_data(l) or has_data(r)):
+            other = r if has_data(l) else l
+            c = Lin.of(other) if not has_data(other) and not isinstance(other, Quot) else None
+            if c is not None and c.is_const() and c.const != 0:
+                raise KernelFault(f"`{norm(node, 60)}` adds the constant {c.const} to a combination of data values: the result is not proportional to the data")
         if isinstance(op, ast.Div):
             ll, rr = Lin.of(l) if not isinstance(l, (Quot, Term, SumV, Data)) else None, Lin.of(r) if not isinstance(r, (Quot, Term, SumV, Data)) else None
             if ll is not None and rr is not None and not rr.is_const():
